@@ -2,7 +2,7 @@
 """Self-test of the checkers: every mutant must fire (naming the expected rule), every benign edit must
 stay silent.  Each variant is applied to a scratch copy of /repo (removed afterwards); /repo is never touched.
 
-usage: selftest/run.py [-k substring] [--suite]     (--suite additionally runs the pinned test-suite on each mutant)
+usage: selftest/run.py [-k substring] [--suite] [--kind benign|mutant] [--props C01,C04]     (--suite additionally runs the pinned test-suite on each mutant)
 """
 import json
 import os
@@ -62,6 +62,12 @@ def main():
     suite = "--suite" in args
     sel = args[args.index("-k") + 1] if "-k" in args else ""
     vs = [v for v in VARIANTS if sel in v["name"]]
+    if "--kind" in args:
+        vs = [v for v in vs if v["kind"] == args[args.index("--kind") + 1]]
+    if "--props" in args:
+        # run every selected variant against these properties instead of its own list (used to sweep ALL benign patches against rules that changed)
+        ov = args[args.index("--props") + 1].split(",")
+        vs = [dict(v, props=ov) for v in vs]
     bad = 0
     with ThreadPoolExecutor(max_workers=4) as ex:
         for v, res, suite_ok in ex.map(lambda v: run_variant(v, suite), vs):
